@@ -58,7 +58,7 @@ def main():
         "setup_cmd": "./run setup",
         "hooks": {
             "guard": "cargo feature `verif-hooks` on mina_core (off by default)",
-            "enable": "the harness depends on mina_core with features=[\"verif-hooks\"] (path dependency on /repo/core)",
+            "enable": "harness cargo feature `hooks` (default on) of mv-core, forwarded by mv-gen / mv-inproc / mv-bevy / the fuzz crate, enables mina_core/verif-hooks (path dependency on /repo/core); ./run rebuilds with --no-default-features when the hook does not compile against the tree",
             "baseline_off_cmd": "cd /repo && cargo test --workspace --no-fail-fast --offline",
             "source_commits": hooks_commits,
             "add_only": True,
